@@ -100,7 +100,15 @@ class Env:
             if nonzero:
                 self.path.assume(x != 0)
             if positive:
-                self.path.assume(x > 0)
+                from . import poly
+                if poly.ON[0]:
+                    # canonical mode: the variable is structurally positive from here on; the assumption itself is
+                    # recorded as a raw node (cmp() would fold it away on re-executions)
+                    self.path.assume(SymBool(core.mk("lt", (core.R0, x.n), "B"), x.v > 0))
+                    core.POSVARS.add(name)
+                    core._SIGN_MEMO.pop(x.n.uid, None)
+                else:
+                    self.path.assume(x > 0)
             if nonneg:
                 self.path.assume(x >= 0)
             if lo is not None:
